@@ -78,6 +78,18 @@ func sameReply(cmd string, argv []string, got, want resp.Value) bool {
 		return false
 	}
 	switch cmd {
+	case "CONFIG":
+		// name/value pairs: parameter names compare without regard to letter case (a server may normalise them)
+		if len(got.A)%2 != 0 {
+			return false
+		}
+		g, w := flat(got), flat(want)
+		for i := 0; i+1 < len(w); i += 2 {
+			if !strings.EqualFold(g[i], w[i]) || g[i+1] != w[i+1] {
+				return false
+			}
+		}
+		return true
 	case "SMEMBERS", "HKEYS", "HVALS", "KEYS":
 		g, w := flat(got), flat(want)
 		sort.Strings(g)
